@@ -27,14 +27,15 @@ func C03(r *core.Run) {
 	r.Explanation = "Membership guards and field provenance of object listings in all four backends, on all paths (not order, not the string semantics of Prefix.Match): " +
 		"(R03.1) every ObjectList.Add/AddPrefix is reachable only after a positive prefix test of the very key being added (Prefix.Match, or the HasPrefix test on the directory entry in the fs file-prefix walkers), Add only on the not-grouped arm and AddPrefix only on the grouped / directory arm; " +
 		"(R03.2) delete-marked keys are never listed and the listed Key is the iterated key; (R03.3) listed ETag and Size come from the same stored record as the Key; " +
-		"(R03.4) the two fs backends' listing helpers agree argument by argument; (R03.5) AddPrefix de-duplicates; (R03.6) a listing loop passes over a key only for the admissible reasons (no match, delete marker, prefix already reported); (R03.7) Prefix.Match splits and re-joins with the request's delimiter; (R10.5) distinct keys have distinct metadata records on the fs backends (the listed ETag is the key's own); (R02.7) deleting a nested key leaves no empty directory behind to be listed as a phantom prefix."
-	r.NotDecided = "ascending byte order (false today on the fs backends without a delimiter: directory-walk order), the semantics of Prefix.Match, delimiters other than '/', that every live key is visited (completeness of the iteration)"
+		"(R03.4) the two fs backends' listing helpers agree argument by argument; (R03.5) AddPrefix de-duplicates; (R03.6) a listing loop passes over a key only for the admissible reasons (no match, delete marker, prefix already reported); (R03.7) Prefix.Match splits and re-joins with the request's delimiter; (R10.5) distinct keys have distinct metadata records on the fs backends (the listed ETag is the key's own); (R02.7) deleting a nested key leaves no empty directory behind to be listed as a phantom prefix. (R03.8) a listing collected by walking the directory tree is sorted by key before it is returned."
+	r.NotDecided = "ascending byte order as a value statement (only: ordered store or explicit sort by key, R03.8), the semantics of Prefix.Match, delimiters other than '/', that every live key is visited (completeness of the iteration)"
 	rule031(r)
 	rule033(r)
 	rule034(r)
 	rule035(r)
 	rule036(r)
 	rule037(r)
+	rule038(r)
 	rule105(r)
 	rule027(r)
 }
@@ -798,4 +799,83 @@ func rule037(r *core.Run) {
 		}
 	}
 	r.Check(okFlag, "R03.7", key(name, "CommonPrefix = (matched part != key)"), r.P.Pos(fn.Pos()), "grouped iff the matched part is a proper prefix of the key", "the CommonPrefix flag is no longer 'matched part != key'")
+}
+
+// rule038 — a listing collected by walking a directory tree is put into key order.
+func rule038(r *core.Run) {
+	r.Rule("R03.8", "a listing that the fs backends collect by walking the bucket's directory tree (afero.Walk visits directory after directory, not keys in byte order) is sorted by Content.Key before it is returned: every successful return after the walk passes a sort of response.Contents whose comparator orders by Key")
+	n := 0
+	for _, fn := range r.P.FuncsOfPkg("s3afero") {
+		if fn.Parent() != nil {
+			continue
+		}
+		var walk *ssa.Call
+		core.Instrs(fn, func(in ssa.Instruction) {
+			if c, ok := in.(*ssa.Call); ok && r.P.CalleeName(c) == "github.com/spf13/afero.Walk" {
+				walk = c
+			}
+		})
+		if walk == nil {
+			continue
+		}
+		// does the walk callback add listing entries?
+		adds := false
+		for _, cl := range core.Closures(fn) {
+			if len(r.P.CallsIn(cl, false, core.NameIs("gofakes3.(*ObjectList).Add"))) > 0 {
+				adds = true
+			}
+		}
+		if !adds {
+			continue
+		}
+		n++
+		f := fn
+		var sorts []ssa.Instruction
+		core.Instrs(f, func(in ssa.Instruction) {
+			c, ok := in.(*ssa.Call)
+			if !ok {
+				return
+			}
+			cn := r.P.CalleeName(c)
+			if cn != "sort.Slice" && cn != "sort.SliceStable" && cn != "sort.Sort" && cn != "sort.Stable" {
+				return
+			}
+			as := r.P.SliceOf(c.Call.Args[0], core.SliceOpts{Depth: -1})
+			if !as.Has("field:gofakes3.ObjectList.Contents") {
+				return
+			}
+			// comparator orders by Key
+			byKey := false
+			for _, cl := range core.Closures(f) {
+				core.Instrs(cl, func(ci ssa.Instruction) {
+					b, ok := ci.(*ssa.BinOp)
+					if ok && (b.Op == token.LSS || b.Op == token.GTR || b.Op == token.LEQ || b.Op == token.GEQ) && isLoadOf(r, b.X, "gofakes3.Content.Key") && isLoadOf(r, b.Y, "gofakes3.Content.Key") {
+						byKey = true
+					}
+				})
+			}
+			if byKey {
+				sorts = append(sorts, c)
+			}
+		})
+		ok := len(sorts) > 0
+		for ret, ev := range returnedErrors(f) {
+			if !definitelyNil(r, ev) || !core.Reaches(walk, ret) {
+				continue
+			}
+			if core.ReachesAvoiding(walk, ret, func(in ssa.Instruction) bool {
+				for _, s := range sorts {
+					if in == s {
+						return true
+					}
+				}
+				return false
+			}) {
+				ok = false
+			}
+		}
+		r.Check(ok, "R03.8", key(fname(r, f), "walked listing sorted by key"), pos(r, walk), "sort of Contents by Key between the walk and the return",
+			"the entries collected by walking the directory tree are returned in walk order: keys are not in byte order (a/b before a.txt and a-1)")
+	}
+	r.Floor("R03.8", 2, "tree-walking listings")
 }
